@@ -29,12 +29,14 @@ def harnesses(tier):
     NOTE = [('opendocument', 'repo:opendocument-content.c', 'mmd_export_token_opendocument', ['mmd_export_token_tree_opendocument', 'mmd_export_token_tree_opendocument_raw', 'mmd_export_token_tree_opendocument_math']),
             ('html', 'repo:html.c', 'mmd_export_token_html', ['mmd_export_token_tree_html', 'mmd_export_token_tree_html_raw', 'mmd_export_token_tree_html_math'])]
     for wn, unit, fn, trees in NOTE:
+        esc = dict(ESCAPER='mmd_print_string_html') if wn == 'html' else dict(ESCAPER='verif_unused_escaper', ESCAPER3='mmd_print_string_opendocument')
+        escrm = ['mmd_print_string_html'] if wn == 'html' else ['mmd_print_string_opendocument']
         for kind in ('PAIR_BRACKET_ABBREVIATION', 'PAIR_BRACKET_GLOSSARY'):
             hs.append(dict(name='c08_note_%s_%s' % (wn, kind.split('_')[-1].lower()), src='c08/note.c',
-                           defs=dict(EXPORT=fn, TREE1=trees[0], TREE2=trees[1], TREE3=trees[2], NOTEKIND=kind, N=1), pool_off=True,
-                           units=[dict(src=unit, cflags=['-Dexit=verif_exit', '-Dfprintf=verif_fprintf'], remove=trees + (['mmd_print_string_html'] if False else [])), 'repo:token.c', 'repo:stack.c', 'repo:object_pool.c', 'repo:char.c'],
-                           unwind=140, unwindset=['mmd_export_token_%s:2' % wn], object_bits=11, timeout=1500, mem_gb=8, functional=True, replay=False, nobody_ok=['verif_exit', 'verif_fprintf'],
-                           bounds='short and long form of 1 arbitrary byte >= 0x20 each; first use / re-use x reference / inline definition',
+                           defs=dict(EXPORT=fn, TREE1=trees[0], TREE2=trees[1], TREE3=trees[2], NOTEKIND=kind, **esc), pool_off=True,
+                           units=[dict(src=unit, cflags=['-Dexit=verif_exit', '-Dfprintf=verif_fprintf'], remove=trees + escrm), 'repo:token.c', 'repo:stack.c', 'repo:object_pool.c', 'repo:char.c'],
+                           unwind=12, unwindset=['mmd_export_token_%s:2' % wn, 'd_string_append_printf.0:120', 'strlen.0:40'], object_bits=11, timeout=900, mem_gb=6, functional=True, replay=False,
+                           bounds='first use / re-use x reference / inline definition; the note strings are tracked by identity (any content)',
                            desc='%s %s: abbreviation/glossary text is escaped on every path (first use, re-use, inline, reference)' % (fn, kind)))
     return hs
 
